@@ -617,6 +617,86 @@ def rotation_case(rng, sess: Session):
 
 
 # ------------------------------------------------------------------------------ driver
+# ------------------------------------------------------------------------------ (F) scripted multi-process history
+def scripted_case(rng, sess: Session):
+    """Several long-lived writer processes and a rotator are driven step by step (every append returns before the next
+    command is issued), so the history is sequential across processes: reading the generations oldest -> newest must
+    give exactly the issued appends in issue order (minus whole generations dropped as oldest)."""
+    import subprocess
+    from clematis.scripts.rotate_logs import rotate_one
+    from vlib import bootstrap
+
+    nw = rng.randint(2, 3)
+    backups = rng.choice([1, 2, 5, 100])
+    steps = []
+    for _ in range(rng.randint(8, 40)):
+        r = rng.random()
+        steps.append(["rotate"] if r < 0.2 else ["append", rng.randrange(nw)])
+    with tmpdir("c16s_") as d:
+        name = "scripted.jsonl"
+        path = os.path.join(d, name)
+        procs = []
+        try:
+            for w in range(nw):
+                p = subprocess.Popen([bootstrap.PY, "-m", "vlib.logworker"], stdin=subprocess.PIPE, stdout=subprocess.PIPE, stderr=subprocess.DEVNULL, text=True,
+                                     env=bootstrap.child_env(), cwd=bootstrap.VERIF)
+                p.stdin.write(json.dumps({"log_dir": d, "stream": name, "serve": True}) + "\n")
+                p.stdin.flush()
+                if not p.stdout.readline():
+                    sess.inconclusive_because("scripted writer did not start")
+                    return
+                procs.append(p)
+            issued = []
+            dropped_possible = False
+            for st in steps:
+                if st[0] == "rotate":
+                    if os.path.exists(path):
+                        rotate_one(path, backups=backups)
+                        sess.count("scripted_rotations")
+                    continue
+                rec = {"w": st[1], "seq": len(issued), "body": "x" * rng.choice([1, 10, 200])}
+                procs[st[1]].stdin.write(json.dumps({"append": rec}) + "\n")
+                procs[st[1]].stdin.flush()
+                rep = procs[st[1]].stdout.readline()
+                if not rep or "ok" not in rep:
+                    sess.violation("scripted:append-failed", {"steps": steps, "backups": backups}, rep[:200] if rep else "writer died")
+                    return
+                issued.append(rec["seq"])
+            got = []
+            for f in read_generations(path):
+                for ln in open(f, "rb").read().split(b"\n"):
+                    if ln:
+                        try:
+                            got.append(json.loads(ln)["seq"])
+                        except Exception:
+                            sess.violation("torn-or-unparsable-line", {"steps": steps, "backups": backups}, ln[:80].decode("utf-8", "replace"))
+                            return
+            sess.evaluations += 1
+            sess.count("scripted_histories")
+            sess.count("scripted_appends", len(issued))
+            case = {"steps": steps, "backups": backups, "writers": nw}
+            if sum(1 for s_ in steps if s_[0] == "rotate"):
+                sess.nontrivial.add(chash(case))
+            # with `backups` generations kept, everything older may have been dropped: got must be a suffix of issued
+            if got != issued[len(issued) - len(got):]:
+                sess.violation("scripted:generations-not-in-append-order-or-record-misplaced", case, {"on_disk_oldest_to_newest": got[:40], "issued": issued[:40]})
+            elif backups >= 100 and len(got) != len(issued):
+                sess.violation("record-lost", case, {"on_disk": len(got), "issued": len(issued)})
+        finally:
+            for p in procs:
+                try:
+                    p.stdin.write(json.dumps({"quit": 1}) + "\n")
+                    p.stdin.flush()
+                    p.stdin.close()
+                except Exception:
+                    pass
+            for p in procs:
+                try:
+                    p.wait(timeout=10)
+                except Exception:
+                    p.kill()
+
+
 def gen_writer_case(rng, tier):
     big = tier == "thorough"
     sizes = rng.choice([[1, 10, 200], [1, 200, 5000, 70000], [100, 70000, 300000], [1, 1048576] if big else [1, 200000], [50]])
@@ -653,6 +733,9 @@ def _work(args):
         elif what == "rotation":
             for _ in range(20 if q else 600):
                 rotation_case(rng, sess)
+        elif what == "scripted":
+            for _ in range(6 if q else 150):
+                scripted_case(rng, sess)
     except Exception as ex:
         import traceback
         sess.inconclusive_because(f"harness error {type(ex).__name__}: {ex} @ {traceback.format_exc()[-500:]}")
@@ -664,7 +747,7 @@ def main(tier: str, seed: int):
     sess.assume("writers and the rotator run on a local POSIX file system (O_APPEND semantics); generations are read oldest -> newest")
     sess.assume("the rotator keeps 100000 generations in the concurrent runs so that only the properties of appends are judged there; dropping the oldest generation is judged in the rotation histories")
     jobs = [("writers", tier, seed, i) for i in range(6 if tier == "quick" else 14)]
-    for what, n in (("norm", 2), ("staging", 3), ("rewrite", 2), ("rotation", 3)):
+    for what, n in (("norm", 2), ("staging", 3), ("rewrite", 2), ("rotation", 3), ("scripted", 3)):
         jobs += [(what, tier, seed, i) for i in range(n if tier == "quick" else 6)]
     for ex in par.pmap(_work, jobs):
         sess.merge(ex)
@@ -678,6 +761,8 @@ def main(tier: str, seed: int):
     sess.require("rewrites_checked", 40)
     sess.require("rotation_rounds", 200)
     sess.require("rotation_faults_fired:interrupt", 10)
+    sess.require("scripted_histories", 12)
+    sess.require("scripted_rotations", 10)
     sess.finish()
 
 
